@@ -471,7 +471,12 @@ func runHistory(cs Case) (probs []problem, iters []mapord.Iter, complete bool, o
 	mapord.Begin(cs.Devs)
 	complete = true
 	for i, o := range cs.Ops {
-		en, ps := apply(w, o, i)
+		var en bool
+		var ps []problem
+		if g := core.Guard(func() { en, ps = apply(w, o, i) }); g.Panicked {
+			// a crash (or an explicit panic) inside the node graph while reading / re-wiring
+			en, ps = true, []problem{{"nodes." + core.TopFrame(g.Stack), "reading a node output returns the value a from-scratch evaluation of the current graph returns", "panic", fmt.Sprintf("%s panicked: %s", o, g.Msg), i}}
+		}
 		if !en {
 			complete = false
 			break
